@@ -22,49 +22,36 @@
     * `x_enc_length_next` / `_nextBar` / `_reset` — the call returns normally and the size of
       the new state equals the size of the old one (TrueRange-carrying indicators: equals the
       closed form with `trLen = 9` after an input, `= 1` after `reset`).
+
+  Dependencies.  Only `Lemmas/Core` (`WF`) and the VALUE-AGNOSTIC `Lemmas/Total` are imported: the
+  invariance theorems use `*_total` (returns, keeps `WF`, keeps the periods) and, for the indicators
+  carrying a TrueRange, `*_shape` (`Some` after an input, `None` after `reset`); no `next_eq` /
+  `reset_eq`, so a change of the Rust code that only alters an arithmetic value leaves this file intact.
 -/
 import TaRs.Lemmas.CodecLemmas
-import TaRs.Lemmas.DataItem
-import TaRs.Lemmas.TrueRange
+import TaRs.Gen.DataItem
+import TaRs.Lemmas.Total.TrueRange
 import TaRs.Lemmas.Core.OnBalanceVolume
 import TaRs.Lemmas.Core.ExponentialMovingAverage
-import TaRs.Lemmas.SimpleMovingAverage
-import TaRs.Lemmas.WeightedMovingAverage
-import TaRs.Lemmas.StandardDeviation
-import TaRs.Lemmas.MeanAbsoluteDeviation
-import TaRs.Lemmas.Minimum
-import TaRs.Lemmas.Maximum
-import TaRs.Lemmas.EfficiencyRatio
-import TaRs.Lemmas.RateOfChange
-import TaRs.Lemmas.MoneyFlowIndex
+import TaRs.Lemmas.Total.SimpleMovingAverage
+import TaRs.Lemmas.Total.WeightedMovingAverage
+import TaRs.Lemmas.Total.StandardDeviation
+import TaRs.Lemmas.Total.MeanAbsoluteDeviation
+import TaRs.Lemmas.Total.Minimum
+import TaRs.Lemmas.Total.Maximum
+import TaRs.Lemmas.Total.EfficiencyRatio
+import TaRs.Lemmas.Total.RateOfChange
+import TaRs.Lemmas.Total.MoneyFlowIndex
 import TaRs.Lemmas.Core.RelativeStrengthIndex
-import TaRs.Lemmas.FastStochastic
-import TaRs.Lemmas.SlowStochastic
-import TaRs.Lemmas.AverageTrueRange
+import TaRs.Lemmas.Total.FastStochastic
+import TaRs.Lemmas.Total.SlowStochastic
+import TaRs.Lemmas.Total.AverageTrueRange
 import TaRs.Lemmas.Core.MovingAverageConvergenceDivergence
 import TaRs.Lemmas.Core.PercentagePriceOscillator
-import TaRs.Lemmas.CommodityChannelIndex
-import TaRs.Lemmas.BollingerBands
-import TaRs.Lemmas.ChandelierExit
-import TaRs.Lemmas.KeltnerChannel
-import TaRs.Lemmas.Reset.SlowStochastic
-import TaRs.Lemmas.Reset.RateOfChange
-import TaRs.Lemmas.Reset.StandardDeviation
-import TaRs.Lemmas.Reset.EfficiencyRatio
-import TaRs.Lemmas.Reset.ChandelierExit
-import TaRs.Lemmas.Reset.CommodityChannelIndex
-import TaRs.Lemmas.Reset.BollingerBands
-import TaRs.Lemmas.Reset.AverageTrueRange
-import TaRs.Lemmas.Misc.AverageTrueRange
-import TaRs.Lemmas.Reset.Maximum
-import TaRs.Lemmas.Reset.WeightedMovingAverage
-import TaRs.Lemmas.Reset.SimpleMovingAverage
-import TaRs.Lemmas.Reset.MoneyFlowIndex
-import TaRs.Lemmas.Reset.FastStochastic
-import TaRs.Lemmas.Reset.KeltnerChannel
-import TaRs.Lemmas.Reset.Minimum
-import TaRs.Lemmas.Reset.MeanAbsoluteDeviation
-import TaRs.Lemmas.Reset.TrueRange
+import TaRs.Lemmas.Total.CommodityChannelIndex
+import TaRs.Lemmas.Total.BollingerBands
+import TaRs.Lemmas.Total.ChandelierExit
+import TaRs.Lemmas.Total.KeltnerChannel
 
 namespace TaRs.Props.C18
 open TaRs TaRs.Gen TaRs.Rs TaRs.Codec
@@ -82,6 +69,16 @@ theorem trLen_pos {F : Type} (s : TrueRange F) : 1 ≤ trLen s := by
   unfold trLen; split <;> omega
 theorem trLen_none {F : Type} : trLen ({ prev_close := none } : TrueRange F) = 1 := rfl
 theorem trLen_some {F : Type} (x : F) : trLen ({ prev_close := some x } : TrueRange F) = 9 := rfl
+/-- helper: only the SHAPE of the `Option` matters for the size -/
+theorem trLen_of_isSome {F : Type} {s : TrueRange F} (h : s.prev_close.isSome = true) : trLen s = 9 := by
+  obtain ⟨pc⟩ := s
+  cases pc with
+  | none => cases h
+  | some v => rfl
+theorem trLen_of_none {F : Type} {s : TrueRange F} (h : s.prev_close = none) : trLen s = 1 := by
+  obtain ⟨pc⟩ := s
+  cases h
+  rfl
 
 /-! ### Sizes and bounds -/
 section Length
@@ -417,11 +414,13 @@ theorem sma_enc_length_next (s : SimpleMovingAverage F) (h : SimpleMovingAverage
 
 theorem sma_enc_length_nextBar (s : SimpleMovingAverage F) (h : SimpleMovingAverage.WF s) (b : Bar F) :
     ∃ r, s.nextBar b = some r ∧ (SimpleMovingAverage.enc tb r.1).length = (SimpleMovingAverage.enc tb s).length := by
-  rw [SimpleMovingAverage.nextBar_eq]; exact sma_enc_length_next tb s h b.close
+  obtain ⟨r, hr, hw, hp⟩ := SimpleMovingAverage.nextBar_total s b h
+  exact ⟨r, hr, sma_enc_length_congr tb s r.1 h hw hp⟩
 
 theorem sma_enc_length_reset (s : SimpleMovingAverage F) (h : SimpleMovingAverage.WF s) :
-    ∃ r, s.reset = some r ∧ (SimpleMovingAverage.enc tb r).length = (SimpleMovingAverage.enc tb s).length :=
-  ⟨_, SimpleMovingAverage.reset_eq s h, sma_enc_length_congr tb s _ h (SimpleMovingAverage.fresh_wf _ h.pos h.small) rfl⟩
+    ∃ r, s.reset = some r ∧ (SimpleMovingAverage.enc tb r).length = (SimpleMovingAverage.enc tb s).length := by
+  obtain ⟨r, hr, hw, hp⟩ := SimpleMovingAverage.reset_total s h
+  exact ⟨r, hr, sma_enc_length_congr tb s r h hw hp⟩
 
 /-- same parameters ⇒ same size, whatever the contents of the two states -/
 theorem wma_enc_length_congr (s s' : WeightedMovingAverage F) (h : WeightedMovingAverage.WF s) (h' : WeightedMovingAverage.WF s')
@@ -435,11 +434,13 @@ theorem wma_enc_length_next (s : WeightedMovingAverage F) (h : WeightedMovingAve
 
 theorem wma_enc_length_nextBar (s : WeightedMovingAverage F) (h : WeightedMovingAverage.WF s) (b : Bar F) :
     ∃ r, s.nextBar b = some r ∧ (WeightedMovingAverage.enc tb r.1).length = (WeightedMovingAverage.enc tb s).length := by
-  rw [WeightedMovingAverage.nextBar_eq]; exact wma_enc_length_next tb s h b.close
+  obtain ⟨r, hr, hw, hp⟩ := WeightedMovingAverage.nextBar_total s b h
+  exact ⟨r, hr, wma_enc_length_congr tb s r.1 h hw hp⟩
 
 theorem wma_enc_length_reset (s : WeightedMovingAverage F) (h : WeightedMovingAverage.WF s) :
-    ∃ r, s.reset = some r ∧ (WeightedMovingAverage.enc tb r).length = (WeightedMovingAverage.enc tb s).length :=
-  ⟨_, WeightedMovingAverage.reset_eq s h, wma_enc_length_congr tb s _ h (WeightedMovingAverage.fresh_wf _ h.pos h.small) rfl⟩
+    ∃ r, s.reset = some r ∧ (WeightedMovingAverage.enc tb r).length = (WeightedMovingAverage.enc tb s).length := by
+  obtain ⟨r, hr, hw, hp⟩ := WeightedMovingAverage.reset_total s h
+  exact ⟨r, hr, wma_enc_length_congr tb s r h hw hp⟩
 
 /-- same parameters ⇒ same size, whatever the contents of the two states -/
 theorem sd_enc_length_congr (s s' : StandardDeviation F) (h : StandardDeviation.WF s) (h' : StandardDeviation.WF s')
@@ -453,11 +454,13 @@ theorem sd_enc_length_next (s : StandardDeviation F) (h : StandardDeviation.WF s
 
 theorem sd_enc_length_nextBar (s : StandardDeviation F) (h : StandardDeviation.WF s) (b : Bar F) :
     ∃ r, s.nextBar b = some r ∧ (StandardDeviation.enc tb r.1).length = (StandardDeviation.enc tb s).length := by
-  rw [StandardDeviation.nextBar_eq]; exact sd_enc_length_next tb s h b.close
+  obtain ⟨r, hr, hw, hp⟩ := StandardDeviation.nextBar_total s b h
+  exact ⟨r, hr, sd_enc_length_congr tb s r.1 h hw hp⟩
 
 theorem sd_enc_length_reset (s : StandardDeviation F) (h : StandardDeviation.WF s) :
-    ∃ r, s.reset = some r ∧ (StandardDeviation.enc tb r).length = (StandardDeviation.enc tb s).length :=
-  ⟨_, StandardDeviation.reset_eq s h, sd_enc_length_congr tb s _ h (StandardDeviation.fresh_wf _ h.pos h.small) rfl⟩
+    ∃ r, s.reset = some r ∧ (StandardDeviation.enc tb r).length = (StandardDeviation.enc tb s).length := by
+  obtain ⟨r, hr, hw, hp⟩ := StandardDeviation.reset_total s h
+  exact ⟨r, hr, sd_enc_length_congr tb s r h hw hp⟩
 
 /-- same parameters ⇒ same size, whatever the contents of the two states -/
 theorem mad_enc_length_congr (s s' : MeanAbsoluteDeviation F) (h : MeanAbsoluteDeviation.WF s) (h' : MeanAbsoluteDeviation.WF s')
@@ -471,11 +474,13 @@ theorem mad_enc_length_next (s : MeanAbsoluteDeviation F) (h : MeanAbsoluteDevia
 
 theorem mad_enc_length_nextBar (s : MeanAbsoluteDeviation F) (h : MeanAbsoluteDeviation.WF s) (b : Bar F) :
     ∃ r, s.nextBar b = some r ∧ (MeanAbsoluteDeviation.enc tb r.1).length = (MeanAbsoluteDeviation.enc tb s).length := by
-  rw [MeanAbsoluteDeviation.nextBar_eq]; exact mad_enc_length_next tb s h b.close
+  obtain ⟨r, hr, hw, hp⟩ := MeanAbsoluteDeviation.nextBar_total s b h
+  exact ⟨r, hr, mad_enc_length_congr tb s r.1 h hw hp⟩
 
 theorem mad_enc_length_reset (s : MeanAbsoluteDeviation F) (h : MeanAbsoluteDeviation.WF s) :
-    ∃ r, s.reset = some r ∧ (MeanAbsoluteDeviation.enc tb r).length = (MeanAbsoluteDeviation.enc tb s).length :=
-  ⟨_, MeanAbsoluteDeviation.reset_eq s h, mad_enc_length_congr tb s _ h (MeanAbsoluteDeviation.fresh_wf _ h.pos h.small) rfl⟩
+    ∃ r, s.reset = some r ∧ (MeanAbsoluteDeviation.enc tb r).length = (MeanAbsoluteDeviation.enc tb s).length := by
+  obtain ⟨r, hr, hw, hp⟩ := MeanAbsoluteDeviation.reset_total s h
+  exact ⟨r, hr, mad_enc_length_congr tb s r h hw hp⟩
 
 /-- same parameters ⇒ same size, whatever the contents of the two states -/
 theorem er_enc_length_congr (s s' : EfficiencyRatio F) (h : EfficiencyRatio.WF s) (h' : EfficiencyRatio.WF s')
@@ -489,11 +494,13 @@ theorem er_enc_length_next (s : EfficiencyRatio F) (h : EfficiencyRatio.WF s) (x
 
 theorem er_enc_length_nextBar (s : EfficiencyRatio F) (h : EfficiencyRatio.WF s) (b : Bar F) :
     ∃ r, s.nextBar b = some r ∧ (EfficiencyRatio.enc tb r.1).length = (EfficiencyRatio.enc tb s).length := by
-  rw [EfficiencyRatio.nextBar_eq]; exact er_enc_length_next tb s h b.close
+  obtain ⟨r, hr, hw, hp⟩ := EfficiencyRatio.nextBar_total s b h
+  exact ⟨r, hr, er_enc_length_congr tb s r.1 h hw hp⟩
 
 theorem er_enc_length_reset (s : EfficiencyRatio F) (h : EfficiencyRatio.WF s) :
-    ∃ r, s.reset = some r ∧ (EfficiencyRatio.enc tb r).length = (EfficiencyRatio.enc tb s).length :=
-  ⟨_, EfficiencyRatio.reset_eq s h, er_enc_length_congr tb s _ h (EfficiencyRatio.fresh_wf _ h.pos h.small) rfl⟩
+    ∃ r, s.reset = some r ∧ (EfficiencyRatio.enc tb r).length = (EfficiencyRatio.enc tb s).length := by
+  obtain ⟨r, hr, hw, hp⟩ := EfficiencyRatio.reset_total s h
+  exact ⟨r, hr, er_enc_length_congr tb s r h hw hp⟩
 
 /-- same parameters ⇒ same size, whatever the contents of the two states -/
 theorem roc_enc_length_congr (s s' : RateOfChange F) (h : RateOfChange.WF s) (h' : RateOfChange.WF s')
@@ -507,11 +514,13 @@ theorem roc_enc_length_next (s : RateOfChange F) (h : RateOfChange.WF s) (x : F)
 
 theorem roc_enc_length_nextBar (s : RateOfChange F) (h : RateOfChange.WF s) (b : Bar F) :
     ∃ r, s.nextBar b = some r ∧ (RateOfChange.enc tb r.1).length = (RateOfChange.enc tb s).length := by
-  rw [RateOfChange.nextBar_eq]; exact roc_enc_length_next tb s h b.close
+  obtain ⟨r, hr, hw, hp⟩ := RateOfChange.nextBar_total s b h
+  exact ⟨r, hr, roc_enc_length_congr tb s r.1 h hw hp⟩
 
 theorem roc_enc_length_reset (s : RateOfChange F) (h : RateOfChange.WF s) :
-    ∃ r, s.reset = some r ∧ (RateOfChange.enc tb r).length = (RateOfChange.enc tb s).length :=
-  ⟨_, RateOfChange.reset_eq s h, roc_enc_length_congr tb s _ h (RateOfChange.fresh_wf _ h.pos h.small) rfl⟩
+    ∃ r, s.reset = some r ∧ (RateOfChange.enc tb r).length = (RateOfChange.enc tb s).length := by
+  obtain ⟨r, hr, hw, hp⟩ := RateOfChange.reset_total s h
+  exact ⟨r, hr, roc_enc_length_congr tb s r h hw hp⟩
 
 /-- same parameters ⇒ same size, whatever the contents of the two states -/
 theorem minimum_enc_length_congr (s s' : Minimum F) (h : Minimum.WF s) (h' : Minimum.WF s')
@@ -530,7 +539,7 @@ theorem minimum_enc_length_nextBar (s : Minimum F) (h : Minimum.WF s) (b : Bar F
 
 theorem minimum_enc_length_reset (s : Minimum F) (h : Minimum.WF s) :
     ∃ r, s.reset = some r ∧ (Minimum.enc tb r).length = (Minimum.enc tb s).length := by
-  obtain ⟨r, hr, hw, hp⟩ := Minimum.reset_wf s h
+  obtain ⟨r, hr, hw, hp⟩ := Minimum.reset_total s h
   exact ⟨r, hr, minimum_enc_length_congr tb s r h hw hp⟩
 
 /-- same parameters ⇒ same size, whatever the contents of the two states -/
@@ -550,7 +559,7 @@ theorem maximum_enc_length_nextBar (s : Maximum F) (h : Maximum.WF s) (b : Bar F
 
 theorem maximum_enc_length_reset (s : Maximum F) (h : Maximum.WF s) :
     ∃ r, s.reset = some r ∧ (Maximum.enc tb r).length = (Maximum.enc tb s).length := by
-  obtain ⟨r, hr, hw, hp⟩ := Maximum.reset_wf s h
+  obtain ⟨r, hr, hw, hp⟩ := Maximum.reset_total s h
   exact ⟨r, hr, maximum_enc_length_congr tb s r h hw hp⟩
 
 /-- same parameters ⇒ same size, whatever the contents of the two states -/
@@ -605,11 +614,13 @@ theorem bb_enc_length_next (s : BollingerBands F) (h : BollingerBands.WF s) (x :
 
 theorem bb_enc_length_nextBar (s : BollingerBands F) (h : BollingerBands.WF s) (b : Bar F) :
     ∃ r, s.nextBar b = some r ∧ (BollingerBands.enc tb r.1).length = (BollingerBands.enc tb s).length := by
-  rw [BollingerBands.nextBar_eq]; exact bb_enc_length_next tb s h b.close
+  obtain ⟨r, hr, hw, hp, _⟩ := BollingerBands.nextBar_total s b h
+  exact ⟨r, hr, bb_enc_length_congr tb s r.1 h hw hp⟩
 
 theorem bb_enc_length_reset (s : BollingerBands F) (h : BollingerBands.WF s) :
-    ∃ r, s.reset = some r ∧ (BollingerBands.enc tb r).length = (BollingerBands.enc tb s).length :=
-  ⟨_, BollingerBands.reset_eq s h, bb_enc_length_congr tb s _ h (BollingerBands.fresh_wf _ _ (h.per ▸ h.sd.pos) (h.per ▸ h.sd.small)) rfl⟩
+    ∃ r, s.reset = some r ∧ (BollingerBands.enc tb r).length = (BollingerBands.enc tb s).length := by
+  obtain ⟨r, hr, hw, hp, _⟩ := BollingerBands.reset_total s h
+  exact ⟨r, hr, bb_enc_length_congr tb s r h hw hp⟩
 
 /-- same parameters ⇒ same size, whatever the contents of the two states -/
 theorem mfi_enc_length_congr (s s' : MoneyFlowIndex F) (h : MoneyFlowIndex.WF s) (h' : MoneyFlowIndex.WF s')
@@ -622,8 +633,9 @@ theorem mfi_enc_length_nextBar (s : MoneyFlowIndex F) (h : MoneyFlowIndex.WF s) 
   exact ⟨r, hr, mfi_enc_length_congr tb s r.1 h hw hp⟩
 
 theorem mfi_enc_length_reset (s : MoneyFlowIndex F) (h : MoneyFlowIndex.WF s) :
-    ∃ r, s.reset = some r ∧ (MoneyFlowIndex.enc tb r).length = (MoneyFlowIndex.enc tb s).length :=
-  ⟨_, MoneyFlowIndex.reset_eq s h, mfi_enc_length_congr tb s _ h (MoneyFlowIndex.fresh_wf _ h.pos h.small) rfl⟩
+    ∃ r, s.reset = some r ∧ (MoneyFlowIndex.enc tb r).length = (MoneyFlowIndex.enc tb s).length := by
+  obtain ⟨r, hr, hw, hp⟩ := MoneyFlowIndex.reset_total s h
+  exact ⟨r, hr, mfi_enc_length_congr tb s r h hw hp⟩
 
 /-- same parameters ⇒ same size, whatever the contents of the two states -/
 theorem cci_enc_length_congr (s s' : CommodityChannelIndex F) (h : CommodityChannelIndex.WF s) (h' : CommodityChannelIndex.WF s')
@@ -636,8 +648,9 @@ theorem cci_enc_length_nextBar (s : CommodityChannelIndex F) (h : CommodityChann
   exact ⟨r, hr, cci_enc_length_congr tb s r.1 h hw hp⟩
 
 theorem cci_enc_length_reset (s : CommodityChannelIndex F) (h : CommodityChannelIndex.WF s) :
-    ∃ r, s.reset = some r ∧ (CommodityChannelIndex.enc tb r).length = (CommodityChannelIndex.enc tb s).length :=
-  ⟨_, CommodityChannelIndex.reset_eq s h, cci_enc_length_congr tb s _ h (CommodityChannelIndex.fresh_wf _ h.sma.pos h.sma.small) rfl⟩
+    ∃ r, s.reset = some r ∧ (CommodityChannelIndex.enc tb r).length = (CommodityChannelIndex.enc tb s).length := by
+  obtain ⟨r, hr, hw, hp⟩ := CommodityChannelIndex.reset_total s h
+  exact ⟨r, hr, cci_enc_length_congr tb s r h hw hp⟩
 
 /-- constant size: any two states (in particular the states before and after any call) -/
 theorem ema_enc_length_stable (s s' : ExponentialMovingAverage F) : (ExponentialMovingAverage.enc tb s').length = (ExponentialMovingAverage.enc tb s).length := by
@@ -666,16 +679,19 @@ theorem dataItem_enc_length_stable (s s' : DataItem F) : (DataItem.enc tb s').le
 /-! #### Indicators carrying a TrueRange: 1 → 9 bytes at the first input, then constant -/
 
 theorem tr_enc_length_next (s : TrueRange F) (x : F) :
-    ∃ r, s.next x = some r ∧ (TrueRange.enc tb r.1).length = 9 :=
-  ⟨_, TrueRange.next_eq s x, by rw [tr_enc_length]; rfl⟩
+    ∃ r, s.next x = some r ∧ (TrueRange.enc tb r.1).length = 9 := by
+  obtain ⟨r, hr, hs⟩ := TrueRange.next_total s x
+  exact ⟨r, hr, by rw [tr_enc_length, trLen_of_isSome hs]⟩
 
 theorem tr_enc_length_nextBar (s : TrueRange F) (b : Bar F) :
-    ∃ r, s.nextBar b = some r ∧ (TrueRange.enc tb r.1).length = 9 :=
-  ⟨_, TrueRange.nextBar_eq s b, by rw [tr_enc_length]; rfl⟩
+    ∃ r, s.nextBar b = some r ∧ (TrueRange.enc tb r.1).length = 9 := by
+  obtain ⟨r, hr, hs⟩ := TrueRange.nextBar_total s b
+  exact ⟨r, hr, by rw [tr_enc_length, trLen_of_isSome hs]⟩
 
 theorem tr_enc_length_reset (s : TrueRange F) :
-    ∃ r, s.reset = some r ∧ (TrueRange.enc tb r).length = 1 :=
-  ⟨_, TrueRange.reset_eq s, by rw [tr_enc_length]; rfl⟩
+    ∃ r, s.reset = some r ∧ (TrueRange.enc tb r).length = 1 := by
+  obtain ⟨r, hr, hn⟩ := TrueRange.reset_shape s
+  exact ⟨r, hr, by rw [tr_enc_length, trLen_of_none hn]⟩
 
 /-- once an input has been seen the size no longer changes under `next`/`next(&bar)` -/
 theorem tr_enc_length_stable (s : TrueRange F) (hs : s.prev_close ≠ none) :
@@ -690,56 +706,49 @@ theorem tr_enc_length_stable (s : TrueRange F) (hs : s.prev_close ≠ none) :
   · obtain ⟨r, hr, hl⟩ := tr_enc_length_nextBar tb s b; exact ⟨r, hr, hl.trans h9.symm⟩
 
 theorem atr_enc_length_next (s : AverageTrueRange F) (x : F) :
-    ∃ r, s.next x = some r ∧ (AverageTrueRange.enc tb r.1).length = 25 + 9 :=
-  ⟨_, AverageTrueRange.next_eq s x, by rw [atr_enc_length]; rfl⟩
+    ∃ r, s.next x = some r ∧ (AverageTrueRange.enc tb r.1).length = 25 + 9 := by
+  obtain ⟨r, hr, hs⟩ := AverageTrueRange.next_some_shape s x
+  exact ⟨r, hr, by rw [atr_enc_length, trLen_of_isSome hs]⟩
 
 theorem atr_enc_length_nextBar (s : AverageTrueRange F) (b : Bar F) :
-    ∃ r, s.nextBar b = some r ∧ (AverageTrueRange.enc tb r.1).length = 25 + 9 :=
-  ⟨_, AverageTrueRange.nextBar_eq s b, by rw [atr_enc_length]; rfl⟩
+    ∃ r, s.nextBar b = some r ∧ (AverageTrueRange.enc tb r.1).length = 25 + 9 := by
+  obtain ⟨r, hr, hs⟩ := AverageTrueRange.nextBar_some_shape s b
+  exact ⟨r, hr, by rw [atr_enc_length, trLen_of_isSome hs]⟩
 
 theorem atr_enc_length_reset (s : AverageTrueRange F) (h : AverageTrueRange.WF s) :
-    ∃ r, s.reset = some r ∧ (AverageTrueRange.enc tb r).length = 25 + 1 :=
-  ⟨_, AverageTrueRange.reset_eq s h, by rw [atr_enc_length]; rfl⟩
+    ∃ r, s.reset = some r ∧ (AverageTrueRange.enc tb r).length = 25 + 1 := by
+  obtain ⟨r, hr, _, _, hn⟩ := AverageTrueRange.reset_shape s h
+  exact ⟨r, hr, by rw [atr_enc_length, trLen_of_none hn]⟩
 
 theorem kc_enc_length_next (s : KeltnerChannel F) (x : F) :
-    ∃ r, s.next x = some r ∧ (KeltnerChannel.enc tb r.1).length = 66 + 9 :=
-  ⟨_, KeltnerChannel.next_eq s x, by rw [kc_enc_length]; rfl⟩
+    ∃ r, s.next x = some r ∧ (KeltnerChannel.enc tb r.1).length = 66 + 9 := by
+  obtain ⟨r, hr, hs⟩ := KeltnerChannel.next_some_shape s x
+  exact ⟨r, hr, by rw [kc_enc_length, trLen_of_isSome hs]⟩
 
 theorem kc_enc_length_nextBar (s : KeltnerChannel F) (b : Bar F) :
-    ∃ r, s.nextBar b = some r ∧ (KeltnerChannel.enc tb r.1).length = 66 + 9 :=
-  ⟨_, KeltnerChannel.nextBar_eq s b, by rw [kc_enc_length]; rfl⟩
+    ∃ r, s.nextBar b = some r ∧ (KeltnerChannel.enc tb r.1).length = 66 + 9 := by
+  obtain ⟨r, hr, hs⟩ := KeltnerChannel.nextBar_some_shape s b
+  exact ⟨r, hr, by rw [kc_enc_length, trLen_of_isSome hs]⟩
 
 theorem kc_enc_length_reset (s : KeltnerChannel F) (h : KeltnerChannel.WF s) :
-    ∃ r, s.reset = some r ∧ (KeltnerChannel.enc tb r).length = 66 + 1 :=
-  ⟨_, KeltnerChannel.reset_eq s h, by rw [kc_enc_length]; rfl⟩
+    ∃ r, s.reset = some r ∧ (KeltnerChannel.enc tb r).length = 66 + 1 := by
+  obtain ⟨r, hr, _, _, _, hn⟩ := KeltnerChannel.reset_shape s h
+  exact ⟨r, hr, by rw [kc_enc_length, trLen_of_none hn]⟩
 
 /-- ChandelierExit = ATR (TrueRange + EMA) + two windows of the same period + multiplier -/
 theorem ce_enc_length_nextBar (s : ChandelierExit F) (h : ChandelierExit.WF s) (b : Bar F) :
     ∃ r, s.nextBar b = some r ∧
       (ChandelierExit.enc tb r.1).length = 9 + 25 + 2 * (8 * 3 + 8 + 8 * s.atr.ema.period) + 8 := by
-  obtain ⟨⟨mn', lo⟩, e2, w2, p2⟩ := Minimum.nextBar_total s.min b h.min
-  obtain ⟨⟨mx', hi⟩, e3, w3, p3⟩ := Maximum.nextBar_total s.max b h.max
-  refine ⟨_, ChandelierExit.nextBar_wiring s b _ _ mn' lo mx' hi
-    (AverageTrueRange.nextBar_eq s.atr b) e2 e3, ?_⟩
-  rw [ce_enc_length_raw]
-  have h1 := w2.size
-  have h2 := w3.size
-  have h3 := h.pmin
-  have h4 := h.pmax
-  have h5 := AverageTrueRange.period_fn_eq s.atr
-  dsimp only at h1 h2 p2 p3 ⊢
-  rw [trLen_some]
-  omega
+  obtain ⟨r, hr, hw, hp, _, hs⟩ := ChandelierExit.nextBar_shape s b h
+  have hp' : r.1.atr.ema.period = s.atr.ema.period := hp
+  exact ⟨r, hr, by rw [ce_enc_length tb r.1 hw, trLen_of_isSome hs, hp']⟩
 
 theorem ce_enc_length_reset (s : ChandelierExit F) (h : ChandelierExit.WF s) :
     ∃ r, s.reset = some r ∧
       (ChandelierExit.enc tb r).length = 1 + 25 + 2 * (8 * 3 + 8 + 8 * s.atr.ema.period) + 8 := by
-  have h8 : s.atr.period_fn * 8 ≤ isizeMax := h.pmin ▸ h.min.small
-  refine ⟨_, ChandelierExit.reset_eq s h, ?_⟩
-  have hw : ChandelierExit.WF (ChandelierExit.fresh s.period_fn s.multiplier) :=
-    ChandelierExit.fresh_wf _ _ h.atr.ema.pos h8
-  rw [ce_enc_length tb _ hw]
-  rfl
+  obtain ⟨r, hr, hw, hp, _, hn⟩ := ChandelierExit.reset_shape s h
+  have hp' : r.atr.ema.period = s.atr.ema.period := hp
+  exact ⟨r, hr, by rw [ce_enc_length tb r hw, trLen_of_none hn, hp']⟩
 
 /-- once the first bar has been seen, `next(&bar)` no longer changes the size -/
 theorem ce_enc_length_stable (s : ChandelierExit F) (h : ChandelierExit.WF s)
